@@ -75,6 +75,9 @@ def run_crash(spec, db, crash_at, cancel_at=None):
     case.phase(p1)
     out["p1"] = case.phases[-1]
     out["bodies_before"] = len(case.tr.rec.of("enter"))
+    # did the last tick this process reduced end the run?  (decided on this run's own timeline: tie order among
+    # simultaneous tasks may differ from the reference run, so "k == number of reference ticks" is not a sound test)
+    out["p1_ended"] = bool(case.tr.ticks) and (case.tr.ticks[-1].get("running") is False or bool(case.tr.ticks[-1].get("exit")))
     if crash_at is not None:
         out["db_at_crash"], out["ticks_at_crash"] = sr.read_db(db)
 
@@ -193,6 +196,10 @@ def check_point_nonresult(case, k, n, ref, out, acc):
     acc.case()
     acc.hit("crash_point")
     ticks = out["ticks_at_crash"]
+    if len(ticks) < k:
+        # tie order among simultaneous tasks differs from the reference run: this run ended with fewer ticks, the crash point does not exist in it
+        acc.note("crash_point_beyond_this_runs_tick_log")
+        return
     if len(ticks) != k:
         acc.inconclusive.append(f"crash emulation: {len(ticks)} ticks persisted at crash point {k}")
         return
@@ -201,7 +208,7 @@ def check_point_nonresult(case, k, n, ref, out, acc):
     if hres is None:
         acc.violation({"mech": "handler_record_missing_after_restart"}, f"crash after tick {k}: handler row not found", wit)
         return
-    if k == n:
+    if out.get("p1_ended"):
         acc.hit("terminal_prefix_finalised")
         acc.hit("terminal_prefix_" + case["mode"])
         if hres["status"] != r["status"] or (r["status"] == "failed" and bool(hres["error"]) != bool(r["error"])):
@@ -227,6 +234,10 @@ def check_point(case, k, ref, out, acc):
     acc.case()
     acc.hit("crash_point")
     ticks = out["ticks_at_crash"]
+    if len(ticks) < k:
+        # tie order among simultaneous tasks differs from the reference run: this run ended with fewer ticks, the crash point does not exist in it
+        acc.note("crash_point_beyond_this_runs_tick_log")
+        return
     if len(ticks) != k:
         acc.inconclusive.append(f"crash emulation: {len(ticks)} ticks persisted at crash point {k}")
         return
